@@ -111,9 +111,15 @@ CHECKS = {
        "hence twin runs stay equal at every step); an oversized frame only ends a Class A window like a timeout and is ignored in Class C; an invalid JoinAccept leaves the MAC "
        "unchanged. Tied to the code by model/implementation MAC histories and by running twin histories on the implementation that differ only by frames rejected by "
        "construction (random bytes, replays, other-session frames, MIC flips, far-future, wrong-key JoinAccepts, forged MAC commands) inserted at receive opportunities of "
-       "histories that create sticky answers / owed ACKs / ADR counts, comparing every later output and state snapshot.",
-  note=COMMON_NOTE,
-  tech="machine-checked proof in Coq (reject = identity, state equality) + twin-run (2-safety) differential runs on the implementation", ref="6 C07"),
+       "histories that create sticky answers / owed ACKs / ADR counts, comparing every later output and state snapshot. Through the front-ends (Model/AsyncDev.v, Model/NbDev.v): "
+       "C07_async_window_rejected_frame_is_timeout (an RX1/RX2 window of async_device that hears a rejected frame = the window timing out: same device, same radio calls, same "
+       "outcome, for every device state and the rest of any script), C07_async_rxc_rejected_frame_is_skipped (Class C reception: costs one rx call, nothing else), "
+       "C07_nb_rejected_frame_keeps_the_window_open (nb_device: RxDone with a rejected frame = the radio still receiving: same state, MAC, response NoUpdate); tied to the code by "
+       "the front-end correspondence and by twin runs through the real async_device / nb_device (rejected frame vs nothing heard in the same window).",
+  note=COMMON_NOTE + "'Rejected' is spec_accepts of Spec/L2Frame.v (size + reference MIC for the fresh counter), as C05 states acceptance: the stack does not compare the frame's DevAddr with "
+       "the session's (the MIC covers the frame's own address), so a frame bearing another address but authentic under this session's NwkSKey is ACCEPTED by code, model and reference alike; "
+       "such a frame is not in the rejected classes.",
+  tech="machine-checked proof in Coq (reject = identity, state equality; front-end twin equalities) + twin-run (2-safety) differential runs on the implementation incl. both front-ends", ref="6 C07"),
  "C08": dict(
   text="Coq theorems (Props/C08.v) about the model of handle_downlink_macs, for all states and command bytes: RXParamSetupReq: answer 0b111 iff frequency in band, RX1 offset within "
        "the region's limit and RX2 data rate defined (15 = keep), then exactly those three fields change, otherwise the configuration is unchanged; RXTimingSetupReq sets exactly the "
